@@ -5,12 +5,19 @@
 //   * when wait_for_all returns: no body is live, every accepted message has been processed everywhere,
 //     every reserve_wait has been released, and nothing starts afterwards
 //   * after graph::cancel() / after a body threw, only the tasks already dispatched may still enter a body
-// usage: real <topology> <seed> <putters> <arena> <msgs> <depth> <width>      -> one JSON line
+//   * after cancellation / an exception every thread starts at most ONE more body (the task its dispatcher had already
+//     taken), and none after wait_for_all returned / rethrew
+//   * async: wait_for_all returns only after every gateway activity called release_wait and what the gateways put was
+//     processed; tpw (preview build): try_put_and_wait returns only after its message went through every node on its
+//     path (buffering nodes included) and does not wait for an unrelated message that is blocked in a body
+// usage: real <topology> <seed> <putters> <arena> <msgs> <depth> <width> [throw:<node>:<msg> | cancel:<starts>]  -> one JSON line
 #include <oneapi/tbb/flow_graph.h>
 #include <oneapi/tbb/task_arena.h>
 #include <oneapi/tbb/global_control.h>
 #include <atomic>
 #include <chrono>
+#include <condition_variable>
+#include <deque>
 #include <cstdio>
 #include <cstdlib>
 #include <cstring>
@@ -34,9 +41,16 @@ static tbb::task_group_context* g_ctx = nullptr;  // the graph's context: what t
 static std::atomic<long> g_late{0};               // bodies entered after that
 static std::atomic<long> g_bodies{0};
 static std::atomic<int> g_throw_at{-1};
+static std::atomic<bool> g_threw{false};           // a body really threw
+static std::atomic<int> g_throw_node{0};          // index of the monitored node whose body throws (fault schedules)
 static int g_spin = 200;
+static std::atomic<long> g_max_thread_late{0};    // most bodies one thread started after it saw the context cancelled
+static thread_local long t_late = 0;
+static std::atomic<int> g_blocker{-1};            // tpw: the unrelated message whose body blocks until a tracked put returned
+static std::atomic<bool> g_unblock{false};
 
 struct Mon {
+    int index = 0;
     std::string name; int limit;                  // 0 = unlimited
     std::atomic<int> live{0}; std::atomic<int> max_live{0};
     std::vector<std::atomic<unsigned short>> seen;
@@ -47,7 +61,12 @@ struct Mon {
         int m = max_live.load(); while (l > m && !max_live.compare_exchange_weak(m, l)) {}
         if (limit > 0 && l > limit) viol("concurrency-limit: node " + name + " (limit " + S(limit) + ") runs " + S(l) + " bodies at once (message " + S(v) + ")");
         starts.fetch_add(1); g_bodies.fetch_add(1);
-        if (g_ctx && g_ctx->is_group_execution_cancelled()) g_late.fetch_add(1);
+        if (g_ctx && g_ctx->is_group_execution_cancelled()) {
+            g_late.fetch_add(1);
+            long mine = ++t_late, m2 = g_max_thread_late.load();
+            while (mine > m2 && !g_max_thread_late.compare_exchange_weak(m2, mine)) {}
+        }
+        if (index == 0 && v == g_blocker.load()) { while (!g_unblock.load()) std::this_thread::yield(); }
         if (v >= 0 && v < (int)seen.size()) seen[v].fetch_add(1);
         volatile int x = 0; for (int i = 0; i < g_spin; ++i) x = x + i;
     }
@@ -58,7 +77,7 @@ struct BodyT {
     Mon* m;
     int operator()(int v) const {
         m->enter(v);
-        if (v == g_throw_at.load()) { g_cancelled.store(true); m->leave(); throw 42; }
+        if (v == g_throw_at.load() && m->index == g_throw_node.load()) { g_cancelled.store(true); g_threw.store(true); m->leave(); throw 42; }
         m->leave(); return v;
     }
 };
@@ -103,6 +122,7 @@ int main(int argc, char** argv) {
     std::vector<std::unique_ptr<graph_node>> extra;
     auto new_fn = [&](const std::string& name, int limit, int policy) -> FN& {
         mons.emplace_back(new Mon(name, limit, N));
+        mons.back()->index = (int)mons.size() - 1;
         fns.push_back(make_fn(g, limit, policy, mons.back().get()));
         return fns.back();
     };
@@ -117,6 +137,18 @@ int main(int argc, char** argv) {
     std::atomic<int> gen_next{0};
     bool use_input = false;
     bool do_cancel = false, do_reserve = false;
+    bool lightweight_nodes = false;
+    int cancel_after = 40;
+    // async: bodies hand (value, gateway) to foreign threads which put the result back and release the gateway, some of them late
+    typedef async_node<int, int> async_t;
+    std::unique_ptr<async_t> anode;
+    std::mutex wq_m; std::condition_variable wq_cv;
+    std::deque<std::pair<int, async_t::gateway_type*>> wq;
+    std::atomic<bool> in_wait{false};
+    std::atomic<int> async_done{0};
+    std::atomic<int> gw_reserved{0}, gw_releasing{0};
+    int nforeign = 0;
+    bool use_tpw = false;
 
     fns.reserve(64);
     if (topo == "chain" || topo == "lightweight" || topo == "cancel" || topo == "throw" || topo == "reserve") {
@@ -186,7 +218,47 @@ int main(int argc, char** argv) {
             make_edge(*fns[0].out, *fns[1].in);
             entry.push_back(fns[0].in); entry_rejects = true;
         }
+    } else if (topo == "async") {
+        // async_node -> work -> sink ; the async body only reserves the gateway and queues the value for a foreign thread
+        Mon* am = new Mon("async", 0, N); mons.emplace_back(am); am->index = 0; mult.push_back(1); entry_of_node.push_back(-1);
+        auto* wqp = &wq; auto* wm = &wq_m; auto* wcv = &wq_cv; auto* gres = &gw_reserved;
+        anode.reset(new async_t(g, unlimited, [am, wqp, wm, wcv, gres](const int& v, async_t::gateway_type& gw) {
+            am->enter(v);
+            gw.reserve_wait();
+            gres->fetch_add(1);
+            { std::lock_guard<std::mutex> l(*wm); wqp->push_back({v, &gw}); }
+            wcv->notify_one();
+            am->leave();
+        }));
+        new_fn("work", pick({0, 1, 2}), 0); mult.push_back(1); entry_of_node.push_back(-1);
+        new_fn("sink", 1, 0); mult.push_back(1); entry_of_node.push_back(-1);
+        make_edge(*anode, *fns[0].in); make_edge(*fns[0].out, *fns[1].in);
+        entry.push_back(anode.get());
+        nforeign = pick({1, 2, 3});
+#if __TBB_PREVIEW_FLOW_GRAPH_TRY_PUT_AND_WAIT
+    } else if (topo == "tpw") {
+        // unlimited node -> queue_node -> serial rejecting node (pulls from the queue) -> serial queueing sink
+        new_fn("first", 0, 0); mult.push_back(1); entry_of_node.push_back(-1);
+        auto* q = new queue_node<int>(g); extra.emplace_back(q);
+        new_fn("rej", 1, 1); mult.push_back(1); entry_of_node.push_back(-1);
+        new_fn("sink", 1, 0); mult.push_back(1); entry_of_node.push_back(-1);
+        make_edge(*fns[0].out, *q); make_edge(*q, *fns[1].in); make_edge(*fns[1].out, *fns[2].in);
+        entry.push_back(fns[0].in);
+        use_tpw = true;
+        if (N >= 4) g_blocker.store(1);
+#endif
     } else { fprintf(stderr, "unknown topology\n"); return 2; }
+    // fault schedule on any topology built from throwing bodies: `throw:<node>:<msg>` / `cancel:<starts>`
+    if (argc > 8) {
+        std::string f = argv[8];
+        if (f.rfind("throw:", 0) == 0) {
+            int node = atoi(f.c_str() + 6); size_t c2 = f.find(':', 6);
+            int msg = c2 == std::string::npos ? 0 : atoi(f.c_str() + c2 + 1);
+            g_throw_node.store(node % (int)mons.size()); g_throw_at.store(msg % N); expect_all = false;
+        } else if (f.rfind("cancel:", 0) == 0) { do_cancel = true; cancel_after = atoi(f.c_str() + 7); expect_all = false; }
+    }
+    for (auto& f : fns) (void)f;
+    lightweight_nodes = (topo == "lightweight" || topo == "fanout" || topo == "diamond" || topo == "input" || topo == "rejecting");
 
     // watchdog: a stalled graph (wait_for_all or a putter never returns) is reported, not waited for
     std::atomic<bool> finished{false};
@@ -215,6 +287,30 @@ int main(int argc, char** argv) {
             g.release_wait();
         });
     }
+    std::vector<std::thread> foreign;
+    for (int k = 0; k < nforeign; ++k) {
+        unsigned s2 = rng();
+        foreign.emplace_back([&, s2] {
+            std::mt19937 r(s2);
+            for (;;) {
+                std::pair<int, async_t::gateway_type*> job;
+                {
+                    std::unique_lock<std::mutex> l(wq_m);
+                    wq_cv.wait(l, [&] { return !wq.empty() || async_done.load() >= N; });
+                    if (wq.empty()) return;
+                    job = wq.front(); wq.pop_front();
+                }
+                unsigned d = r() % 8;
+                if (d == 0) { while (!in_wait.load()) std::this_thread::yield(); std::this_thread::sleep_for(std::chrono::microseconds(r() % 2000)); }   // late: the main thread is already in wait_for_all
+                else if (d < 4) std::this_thread::sleep_for(std::chrono::microseconds(r() % 300));
+                if (!job.second->try_put(job.first)) viol("gateway-put-rejected: gateway.try_put(" + S(job.first) + ") returned false although the successor is queueing");
+                if (r() % 4 == 0) std::this_thread::yield();
+                gw_releasing.fetch_add(1);
+                job.second->release_wait();
+                if (async_done.fetch_add(1) + 1 >= N) wq_cv.notify_all();
+            }
+        });
+    }
     if (use_input) {
         inode->activate();
         for (int i = 0; i < N; ++i) accepted[i].store(1);
@@ -226,7 +322,17 @@ int main(int argc, char** argv) {
                 std::mt19937 r(s2);
                 for (int i = t * per; i < std::min(N, (t + 1) * per); ++i) {
                     if (g_cancelled.load() && !do_reserve) break;          // a cancelled graph must be reset before it is fed again
-                    bool ok = entry[i % entry.size()]->try_put(i);
+                    bool ok;
+#if __TBB_PREVIEW_FLOW_GRAPH_TRY_PUT_AND_WAIT
+                    if (use_tpw && i % 3 == 0 && i != g_blocker.load()) {
+                        ok = entry[0]->try_put_and_wait(i);
+                        // the call returned: the message must have been processed by every node on its path
+                        for (auto& m : mons) if (ok && m->seen[i].load() == 0)
+                            viol("tpw-early-return: try_put_and_wait(" + S(i) + ") returned before node " + m->name + " processed the message");
+                        g_unblock.store(true);
+                    } else
+#endif
+                    ok = entry[i % entry.size()]->try_put(i);
                     accepted[i].store(ok ? 1 : 0);
                     if (!ok && !entry_rejects) viol("rejected-by-accepting-node: try_put(" + S(i) + ") returned false on a queueing/unlimited/buffering entry node");
                     if (r() % 8 == 0) std::this_thread::yield();
@@ -237,14 +343,20 @@ int main(int argc, char** argv) {
     if (do_cancel) {
         // cancel once a third of the messages went through the first node
         auto t0 = std::chrono::steady_clock::now();
-        while (mons[0]->starts.load() < N / 3 && mons[0]->starts.load() < 40 &&
+        while (mons[0]->starts.load() < N / 3 && mons[0]->starts.load() < cancel_after &&
                std::chrono::steady_clock::now() - t0 < std::chrono::seconds(2)) std::this_thread::yield();
         g.cancel();
         g_cancelled.store(true);
     }
     for (auto& t : th) t.join();
+    g_unblock.store(true);
     bool threw = false;
+    in_wait.store(true);
     try { g.wait_for_all(); } catch (...) { threw = true; }
+    if (nforeign && gw_releasing.load() < gw_reserved.load())
+        viol("wait-not-idle: wait_for_all returned while " + S(gw_reserved.load() - gw_releasing.load()) + " gateway activities had not called release_wait");
+    async_done.store(N); wq_cv.notify_all();
+    for (auto& t : foreign) t.join();
     // ---- wait_for_all returned: the graph must be idle
     if (!released.load()) viol("wait-not-idle: wait_for_all returned before release_wait was called");
     long starts_at_return = g_bodies.load();
@@ -253,13 +365,15 @@ int main(int argc, char** argv) {
     std::this_thread::sleep_for(std::chrono::milliseconds(2));
     if (g_bodies.load() != starts_at_return) viol("wait-not-idle: " + S(g_bodies.load() - starts_at_return) + " body(ies) started after wait_for_all returned");
     if (g_throw_at.load() >= 0) {
-        bool reached = mons[0]->seen[g_throw_at.load()].load() > 0;
+        bool reached = g_threw.load();
         if (reached && !threw) viol("exception-lost: a body threw but wait_for_all did not rethrow");
         if (reached && !g.exception_thrown()) viol("exception-lost: exception_thrown() is false");
     }
     if (do_cancel && !g.is_cancelled()) viol("cancel-lost: is_cancelled() is false after cancel()");
     long allowed_late = AR + P + 2;
-    if (topo == "lightweight") allowed_late += 1000000;
+    if (topo == "lightweight" || lightweight_nodes) allowed_late += 1000000;
+    if (!lightweight_nodes && g_max_thread_late.load() > 1)
+        viol("body-after-cancel: one thread started " + S(g_max_thread_late.load()) + " bodies after it saw the context cancelled (only the task it had already taken may still run)");
     if (g_late.load() > allowed_late) viol("body-after-cancel: " + S(g_late.load()) + " bodies started after cancellation/exception (at most " + S(allowed_late) + " tasks were already dispatched)");
     // ---- exactly once
     long max_live = 0;
@@ -284,7 +398,7 @@ int main(int argc, char** argv) {
     watchdog.join();
     // a graph that was cancelled must be reset before destruction is safe for queued items; reset is cheap
     if (!expect_all) { try { g.reset(); } catch (...) {} }
-    fns.clear(); extra.clear(); inode.reset();
+    fns.clear(); extra.clear(); inode.reset(); anode.reset();
     arena.execute([&] { gp.reset(); });
     return g_viol.empty() ? 0 : 1;
 }
